@@ -458,7 +458,10 @@ def stage_lll(ctx, side):
         for i in by_lvl[l]:
             tag, _, q, den, lat = cases[i]
             lines[i] = "lll.run %s %s %s" % (hx(q), hx(den), mat_hex(lat))
-        for i, o in zip(by_lvl[l], side.c(l, ["! 5 " + lines[i] for i in by_lvl[l]])):
+        # alarm: 5 s (calls take milliseconds), 40 s for the few inputs with entries above 2000 bits (measured: 7 s for
+        # 4000-bit entries at level 5)
+        alarm = lambda i: 40 if max(abs(x).bit_length() for row in cases[i][4] for x in row) > 2000 else 5
+        for i, o in zip(by_lvl[l], side.c(l, ["! %d " % alarm(i) + lines[i] for i in by_lvl[l]])):
             outs[i] = o
     keep = [i for i in range(len(cases)) if outs[i] != "skipped"]
     cases = [cases[i] for i in keep]
